@@ -190,7 +190,8 @@ def _min_error_primal(
     # # cvxopt
     # dms = [state / np.trace(state) for state in dms]
     objective = picos.sum([(picos.trace(probs[i] * dms[i] * measurements[i])) for i in range(n)])
-    problem.set_objective("min", objective)
+    # Tr(rho M) is real for Hermitian rho and M; picos needs to be told so for complex states.
+    problem.set_objective("min", objective.real)
     solution = problem.solve(solver=solver, **kwargs)
     return solution.value, measurements
 
